@@ -51,8 +51,26 @@ Proof.
   intro Hx. unfold carried, extract. destruct c; cbn [wanted inject map].
   - rewrite get_head by reflexivity. now apply first_nonempty_cons.
   - rewrite get_head by reflexivity. now apply first_nonempty_cons.
-  - rewrite get_head by reflexivity. now apply first_nonempty_cons.
+  - destruct x as [|b x]; [congruence|]. cbn [map]. rewrite get_head by reflexivity. now apply first_nonempty_cons.
 Qed.
+
+(* a sender WITHOUT a transaction (none, or suspended by NotSupported): whatever xid keys its outgoing
+   context still holds, nothing travels -- gRPC and HTTP; the dubbo filter forwards them (finding
+   carrier.dubbo.no-tx-stale-attachment) *)
+Lemma carrier_no_transaction c pre : c <> Dubbo -> carried c (inject c [] pre) = [].
+Proof.
+  intro Hc. unfold carried, extract. destruct c; try congruence; cbn [wanted inject map].
+  - reflexivity.
+  - rewrite !get_head by reflexivity. reflexivity.
+Qed.
+
+Lemma carrier_no_transaction_dubbo_refuted :
+  exists pre, carried Dubbo (inject Dubbo [] pre) <> [].
+Proof. exists [(k_SEATA_XID, AStr (bytes_of_string "stale"))]. vm_compute. discriminate. Qed.
+
+Lemma carrier_no_transaction_dubbo_partial pre :
+  carried Dubbo pre = [] -> carried Dubbo (inject Dubbo [] pre) = [].
+Proof. intro H. exact H. Qed.
 
 Lemma carrier_roundtrip_empty c : carried c (inject c [] []) = [].
 Proof. destruct c; reflexivity. Qed.
